@@ -9,7 +9,7 @@ from typing import Any
 
 from core import A, DM_CONSTS, PERF, run_driver, run_impl, src_side, ssb_side
 from gen_prog import Cfg, Gen
-from gen_ssb import default_infos, random_routines, relayout, renumber_dense, wf_ssb, ALL_CASES
+from gen_ssb import default_infos, has_test_only_cycle, random_routines, relayout, renumber_dense, wf_ssb, ALL_CASES
 from lang import print_prog
 
 MARKER = "//?: is-ssb-script: true"
@@ -119,7 +119,7 @@ class Case:
 
 
 def gen_cases(seed: int, n_compiled: int, n_relayout: int, n_random: int, prop: str, flat: bool = False,
-              cfg_kw: dict | None = None) -> tuple[list[Case], dict]:
+              cfg_kw: dict | None = None, exclude_test_only_cycles: bool = False) -> tuple[list[Case], dict]:
     """G_ssb: returns well-formed cases and generation statistics"""
     stats: dict[str, int] = {}
     cases: list[Case] = []
@@ -159,6 +159,8 @@ def gen_cases(seed: int, n_compiled: int, n_relayout: int, n_random: int, prop: 
     good = []
     for c in cases:
         why = wf_ssb(c.ops)
+        if why is None and exclude_test_only_cycles and has_test_only_cycle(c.ops):
+            why = "cycle of tests and jumps without any operation"
         if why is None:
             good.append(c)
             stats["wf:" + c.cls] = stats.get("wf:" + c.cls, 0) + 1
